@@ -16,6 +16,9 @@ def fp_array(a):
 def fp_value(v):
     """normalised descriptor value for C12: containers are normalised (ndarray/tuple -> list, Appendix E), element types
     are not (1 != 1.0, 'a' != b'a')"""
+    if isinstance(v, np.ndarray) and v.size > 4096 and v.dtype.kind in 'fiub':
+        import hashlib
+        return ('bigarray', v.shape, v.dtype.str, hashlib.sha1(np.ascontiguousarray(v).tobytes()).hexdigest())
     if isinstance(v, np.ndarray):
         if v.dtype == object or v.ndim == 0:
             return fp_value(v.tolist())
